@@ -23,8 +23,17 @@ def _arm_watchdog(tier: str) -> None:
     budget = float(os.environ.get("VERIF_TIMEOUT") or (1500 if tier == "quick" else 4 * 3600))
 
     def fire():
+        code = 2
         try:
-            print(f"HARNESS-ERROR (inconclusive, not a violation): wall budget of {budget:.0f}s exceeded", flush=True)
+            try:
+                from mzverif import core as _core
+
+                if _core.report_partial():
+                    code = 1
+            except Exception:  # noqa: BLE001
+                pass
+            if code == 2:
+                print(f"HARNESS-ERROR (inconclusive, not a violation): wall budget of {budget:.0f}s exceeded", flush=True)
             for p in multiprocessing.active_children():
                 try:
                     p.kill()
@@ -43,7 +52,8 @@ def _arm_watchdog(tier: str) -> None:
             except Exception:
                 pass
         finally:
-            os._exit(2)
+            sys.stdout.flush()
+            os._exit(code)
 
     t = threading.Timer(budget, fire)
     t.daemon = True
